@@ -11,6 +11,7 @@ import (
 	"reflect"
 	"strconv"
 	"strings"
+	"sync/atomic"
 	"time"
 
 	"github.com/ohler55/ojg"
@@ -461,7 +462,37 @@ func rtOne(api rtAPI, rv reflect.Value) (ev rtEvent) {
 
 // rtIsolated runs one round trip in a child process (encode rtchild <api index>) with the two-stage verdict of iso.go.
 func rtIsolated(line []byte, ai int, api rtAPI, c *caseSpec) []byte {
-	res := runChild([]string{"rtchild", fmt.Sprint(ai)}, line, 1500*time.Millisecond, 10, isolatedKinds(c))
+	return rtIsolatedKey(line, ai, api, c, isolatedKinds(c))
+}
+
+// rtGuarded runs one in-process round trip under a timer. A call that has not returned after lateLimit is abandoned (its goroutine
+// keeps running until the process ends) and the same round trip is repeated in a watched child process, which gives the two-stage
+// hang / died verdict of iso.go: a type that was not expected to need isolation must not be able to stall the whole driver.
+const lateLimit = 15 * time.Second
+
+var lateHangs int32
+
+func rtGuarded(line []byte, ai int, api rtAPI, c *caseSpec, rv reflect.Value) (ev []byte, hung bool) {
+	if atomic.LoadInt32(&lateHangs) < 12 { // every abandoned call keeps a core busy: after a dozen everything goes to child processes
+		done := make(chan []byte, 1)
+		go func() { done <- mustJSON(rtOne(api, rv)) }()
+		select {
+		case ev = <-done:
+			return ev, false
+		case <-time.After(lateLimit):
+			atomic.AddInt32(&lateHangs, 1)
+		}
+	}
+	ks := []string{c.Top}
+	for _, f := range c.F {
+		ks = append(ks, f.K)
+	}
+	ev = rtIsolatedKey(line, ai, api, c, "late:"+strings.Join(ks, "+")+"/"+api.name)
+	return ev, bytes.Contains(ev, []byte(`"hang":true`))
+}
+
+func rtIsolatedKey(line []byte, ai int, api rtAPI, c *caseSpec, key string) []byte {
+	res := runChild([]string{"rtchild", fmt.Sprint(ai)}, line, 1500*time.Millisecond, 10, key)
 	if res.verdict == nil {
 		return res.out
 	}
@@ -536,7 +567,7 @@ func rtCases(args []string) {
 			if tagsOnly && api.mode != "tags" {
 				continue
 			}
-			if isolate && hung {
+			if hung {
 				continue // one hang per case is enough: the remaining routes of this case are not run (watchdog time)
 			}
 			if isolate {
@@ -553,7 +584,12 @@ func rtCases(args []string) {
 					fmt.Fprintln(os.Stderr, "encode:", err)
 					os.Exit(2)
 				}
-				res = append(res, mustJSON(rtOne(api, rv)), mustJSON(map[string]any{"f": c.F, "top": c.Top, "v": c.V, "api": api.name}))
+				var ev []byte
+				ev, hung = rtGuarded(lines[i], ai, api, &c, rv)
+				res = append(res, ev, mustJSON(map[string]any{"f": c.F, "top": c.Top, "v": c.V, "api": api.name}))
+				if hung {
+					break
+				}
 			}
 		}
 		return res
